@@ -162,7 +162,9 @@ pub const PTG_INT_1: [u8; 3] = [0x1E, 0x01, 0x00];
 pub fn cell_record(col: u32, style: u32, v: &CellVal, rgce: &[u8]) -> Rec {
     let mut p = col.to_le_bytes().to_vec();
     p.extend_from_slice(&style.to_le_bytes()[..3]);
-    p.push(0);
+    // the byte after the 24-bit iStyleRef holds fPhShow (bit 0) and reserved bits: not part of the style
+    // reference; set on every other cell
+    p.push(((col + style) % 2) as u8);
     let fm = |p: &mut Vec<u8>| {
         p.extend_from_slice(&0u16.to_le_bytes()); // grbitFlags
         p.extend_from_slice(&parsed_formula(rgce));
